@@ -103,6 +103,12 @@ def token_mutations(rng, text, n):
     return out
 
 
+FIXED_DOCUMENTS = [
+    ("huge-length", "length a = 99999999999999999999999\nX = a( a* )\n"),
+    ("zero-length-only", "length z = 0\n"),
+]
+
+
 def undefined_globals():
     idx = json.load(open(os.path.join(COQ, "gen", "GlobalNames.index.json")))
     # recompute definedness from the probe data the translator saved
@@ -119,8 +125,6 @@ def undefined_globals():
 
 def run(ctx):
     rng, quick = ctx.rng, ctx.tier == "quick"
-    from common import replay_recorded_findings
-    replay_recorded_findings(ctx, ["c16_huge_length"])
     res = prove(ctx)
     if ctx.gen.get("gen_globals"):
         res["ok"] = False
@@ -143,6 +147,11 @@ def run(ctx):
         for kind, text in token_mutations(rng, valid, 3 if quick else 10):
             kinds[kind] = kinds.get(kind, 0) + 1
             cases.append({"kind": kind, "text": text})
+    # always-run documents: a length above sys.maxsize (formerly OverflowError from len() inside
+    # DomainS.identifiers, repaired) and a zero length (formerly treated as "no length given")
+    for kind, text in FIXED_DOCUMENTS:
+        kinds[kind] = kinds.get(kind, 0) + 1
+        cases.append({"kind": kind, "text": text})
     out = run_oracle("c16.py", {"cases": cases})
     ctx.cov["fault_stream"] = {"documents": len(cases), "by_kind": kinds, "failures": len(out["failures"])}
     ctx.add_eval(len(cases), len({c["text"] for c in cases}), samples=[cases[0], cases[-1]])
@@ -150,8 +159,7 @@ def run(ctx):
                        "regenerated table); dynamic: single-fault corruptions of generated valid documents at random positions "
                        "and token-level multi-fault mutations, run against the implementation; non-trivial = distinct documents")
     ctx.cov["partial"] = ["reader_declared_only_full: the model-level outcome kinds OutOfFuel / BadRequest / Unmodelled are not "
-                          "excluded by a theorem (they never occurred in any correspondence run)",
-                          "lengths above sys.maxsize are outside the reader model (recorded finding c16_huge_length)"]
+                          "excluded by a theorem (they never occurred in any correspondence run)"]
     found = []
     for f in out["failures"][:10]:
         found.append({"key": {"kind": f["case"]["kind"], "what": f["what"].split(":")[0]}, "input": f["case"], "what": f["what"],
